@@ -18,7 +18,7 @@ def swarm(rng):
                     "p_sformula": 0.0})
         if rng.random() < 0.4:
             # a lattice in which taking an edge or a space away leaves a space further down without a linearisation
-            cfg.update({"lattice": rng.choice(["remove", "delete"]), "p_hostile": 0.7, "n_steps": 10})
+            cfg.update({"lattice": rng.choice(["remove", "delete", "delete_nested"]), "p_hostile": 0.7, "n_steps": 10})
     return cfg
 
 
@@ -38,6 +38,10 @@ LATTICES = {
     # without C, B(E, D) linearises B, E, F, D; A(B, D, F) then has no order
     "delete": [_space("F"), _cells("F", "f", 1006), _space("D"), _cells("D", "f", 1004), _space("E", ["F"]), _space("C", ["F"]),
                _cells("C", "g", 1013), _space("B", ["E", "D", "C"]), _space("A", ["B", "D", "F"])],
+    # the same, but the space whose removal breaks A is a CHILD of the space that is deleted
+    "delete_nested": [_space("F"), _cells("F", "f", 1006), _space("D"), _cells("D", "f", 1004), _space("E", ["F"]), _space("C"),
+                      {"op": "new_space", "parent": "C", "name": "U", "bases": ["F"]}, _cells("C.U", "g", 1013),
+                      _space("B", ["E", "D", "C.U"]), _space("A", ["B", "D", "F"])],
 }
 
 
